@@ -56,6 +56,29 @@ SuccIn(T, N, y, m) == LET i == PosOf(T, y, m)
 PredIn(T, P, y, m) == LET i == PosOf(T, y, m)
                       IN IF i > 1 THEN Row4(T[i - 1])
                          ELSE LET k == PosOf(P, y, m) IN Row4(P[k - 1])
+(***************************************************************************)
+(* The no-major-term leap rule, written from the rule (not from the code): *)
+(* hs[i] = first day of month i of the table (i = 1..15), zq[k] = civil    *)
+(* day of the k-th major term counted from the winter solstice (k = 1..13, *)
+(* zq[13] = the next winter solstice).  A month contains a term when       *)
+(* hs[i] <= zq[k] < hs[i+1].                                               *)
+(***************************************************************************)
+MonthHasTerm(hs, zq, i) == \E k \in 1..13 : hs[i] <= zq[k] /\ zq[k] < hs[i + 1]
+\* 13 new moons between the two winter-solstice months <=> the second solstice falls in month 14
+ThirteenMonths(hs, zq) == hs[14] <= zq[13]
+LeapIndex(hs, zq) == IF ~ThirteenMonths(hs, zq) THEN 0
+                     ELSE LET c == { i \in 2..13 : ~MonthHasTerm(hs, zq, i) }
+                          IN IF c = {} THEN 0 ELSE CHOOSE i \in c : \A k \in c : i <= k
+\* labels << year, signed month >> of months 1..n of the sui that starts with month 11 of year y-1
+RECURSIVE SuiLabels(_, _, _)
+SuiLabels(y, leap, n) ==
+  IF n = 1 THEN << << y - 1, 11 >> >>
+  ELSE LET prev == SuiLabels(y, leap, n - 1)
+           p == prev[n - 1]
+           num == IF n = leap THEN -AbsMonth(p[2]) ELSE (AbsMonth(p[2]) % 12) + 1
+           yr == IF num = 1 THEN p[1] + 1 ELSE p[1]
+       IN Append(prev, << yr, num >>)
+
 \* the reform years the property exempts
 Exempt(y) == y \in (8..23) \cup (236..240)
 =============================================================================
